@@ -530,7 +530,7 @@ def corr_chunk(ctx, n_modules, per_type, name):
                         ctx.count('corr:' + r[1])
                     cv = coq_value_x(rt, t, v)
                     cases.append(((tn, cv, None if ind is None else C('Some', Nat(ind))), (exp, pv)))
-                    meta.append((mi, text, tn, v, ind, r))
+                    meta.append((mi, text, tn, v, ind, r, to_coq(gen_asn1.coq_env(mod)), to_coq(cases[-1][0])))
                     ctx.case(('corr', gen_asn1.shape(rt, t), vkey(v), ind),
                              dict(kind='corr', type=gen_asn1.shape(rt, t), value=repr(v)[:120], indent=ind,
                                   impl=(r[1][:120].decode('utf-8', 'replace') if r[0] == 'ok' else r[1])))
@@ -541,12 +541,12 @@ def corr_chunk(ctx, n_modules, per_type, name):
     res = ctx.coq_eval(name, IMPORTS, '\n'.join(body) + '\n')
     codes = [c for per in res for c in per]
     assert len(codes) == len(meta), (len(codes), len(meta))
-    for code, (mi, text, tn, v, ind, r) in zip(codes, meta):
+    for code, (mi, text, tn, v, ind, r, cenv, ccase) in zip(codes, meta):
         if code == 0:
             continue
         report(ctx, 'corr-%d' % code, 'correspondence: %s; type %s value %r indent %r; gser.py gives %r'
                % (CODES.get(code, code), tn, v, ind, r[1][:200] if r[0] == 'ok' else r[1:]),
-               replay_dict('corr', text, tn, v, ind, code=code))
+               replay_dict('corr', text, tn, v, ind, code=code, coq_env=cenv, coq_case=ccase))
     return len(codes)
 
 
@@ -586,6 +586,11 @@ def replay(ctx):
     out = lib.attempt(spec.encode, r['type'], v, indent=r.get('indent'), check_types=r.get('kind') != 'corr')
     print('value :', repr(v)[:300])
     print('output:', out[1] if out[0] == 'ok' else out[1:])
+    if r.get('kind') == 'corr' and 'coq_env' in r:
+        (m,) = ctx.coq_eval('replay' + CASE_TAG, IMPORTS, COQ_CHECK + 'Eval vm_compute in show %s %s.\n'
+                            % (r['coq_env'], r['coq_case']))
+        print('model :', bytes(m) if all(0 <= x < 256 for x in m) else 'error code %r' % (m,))
+        print('(correspondence code %s: %s)' % (r.get('code'), CODES.get(r.get('code'))))
     if r.get('kind') == 'inj':
         v2 = eval_value(r['value2'])
         print('value2:', repr(v2)[:300])
@@ -617,11 +622,11 @@ def run(ctx):
         ctx.obligations = []
         ok = ctx.coq_props()
     q = ctx.quick
-    n = corr(ctx, 14 if q else 300, 3 if q else 5)
+    n = corr(ctx, 14 if q else 220, 3 if q else 5)
     ctx.log('correspondence: %d cases' % n)
-    pt_generated(ctx, 25 if q else 1200, 3 if q else 6)
+    pt_generated(ctx, 25 if q else 1000, 3 if q else 6)
     pt_real(ctx, 80 if q else 5000)
-    probe_injectivity(ctx, 15 if q else 1000)
+    probe_injectivity(ctx, 15 if q else 800)
     run_findings(ctx)
     if not ok:
         common.proof_broken(ctx)
